@@ -6,10 +6,41 @@ func init() {
 	vxRegister("H11aQ", H11aQ)
 	vxRegister("H11aT", H11aT)
 	vxRegister("H11http", H11http)
+	vxRegister("H11dash", H11dash)
+	vxRegister("H11tmpl", H11tmpl)
 }
 
 func H11aQ() { h11a(vxBytes(2), "n2") }
 func H11aT() { h11a(vxBytes(3), "n3") }
+
+// H11tmpl: hyphen / newline / notice templates around 3 symbolic bytes.
+func H11tmpl() {
+	k := vxChoice(5)
+	s := vxBytes(3)
+	// exclusion of the known class C11-trailing-hyphen-token (a cleaned token that itself ends in a
+	// hyphen at a line end): the symbolic bytes are not hyphens; the templates supply the hyphens
+	for _, b := range s {
+		vxAssume(vxAnd(b != '-', b != 0xE2))
+	}
+	var in []byte
+	switch k {
+	case 0:
+		in = append(append([]byte("ab-\n"), s[:2]...), append([]byte("\n"), s[2:]...)...)
+	case 1:
+		in = append(append([]byte("ab-\ncd\nef "), s...), " gh\n"...)
+	case 2:
+		in = append(append(append([]byte{}, s[0], '-', '\n', s[1], '\n'), s[2]), " x\ny"...)
+	case 3:
+		in = append(append([]byte("Copyright 2020 x\nab cd\n"), s...), "\nz"...)
+	default:
+		in = append(append([]byte("\n\n1. ab\n"), s...), " q\n"...)
+	}
+	h11a(in, "tmpl")
+}
+
+// H11dash: the known class - a digit-initial word keeps its trailing hyphen when cleaned ("3-)" -> "3-"),
+// and Normalize puts it at a line end where the second pass joins it with the next line.
+func H11dash() { h11a([]byte("ab cd\n3-)\nz"), "dash") }
 
 // H11http: the known re-normalisation class (a cleaned token that contains "https").
 func H11http() { h11a(append([]byte("http://s"), vxBytes(1)...), "http") }
